@@ -671,7 +671,7 @@ def fetch_ast(path):
 
 
 BUILTINS = {"len", "is_empty", "konst::cmp_str", "konst::eq_str", "into", "to_string", "unwrap_or_default_string", "Binary::default",
-            "anyhow::is", "anyhow::downcast", "unwrap", "push", "Response::new", "add_submessages", "add_events", "add_attributes", "into_option", "is_some", "is_none", "min"}
+            "anyhow::is", "anyhow::downcast", "unwrap", "push", "Response::new", "add_submessages", "add_events", "add_attributes", "into_option", "is_some", "is_none", "min", "set_data"}
 
 
 def translate_utils():
@@ -985,6 +985,24 @@ def translate_reply_data():
                              extra_known={"extern::parse_execute_response_data", "extern::parse_instantiate_response_data", "extern::from_json"})
 
 
+def translate_reply_arms():
+    """The GENERATED reply dispatch of one reply id in its four shapes (templates of reply.rs): which handler is called with what,
+    and what a pass-through arm answers. The handlers and from_json are `extern::..` calls."""
+    from . import tmpl_translate, translate
+    _, templates, _ = translate.fetch_tables()
+    path = tmpl_translate.reply_arms_source(templates)
+    kv = fetch_ast(path)
+
+    def setup(t):
+        t.interior = True
+        t.externals = {"success_handler", "error_handler", "always_handler"}
+        t.builder_methods = {"add_events", "set_data"}
+    FOREIGN.update({"from_json": "call:extern::from_json", "ContractT::new": "ContractT::new"})
+    return translate_methods(path, {"ArmsT": [c[0] for c in tmpl_translate.ARM_COMBOS]}, setup=setup, kv=kv,
+                             extra_known={"extern::success_handler", "extern::error_handler", "extern::always_handler", "extern::from_json",
+                                          "Response::new", "add_events", "set_data", "is_some", "unwrap"})
+
+
 def translate_reply_builders():
     """The GENERATED sub-message builders of reply handlers (templates of contract/communication/reply.rs), for every contract,
     handler, trigger and id."""
@@ -1072,6 +1090,12 @@ def generate():
             raise
         rbuild, _ = [], errors.append("generated reply builders (contract/communication/reply.rs templates): %s" % e)
     try:
+        rarms = translate_reply_arms()
+    except Exception as e:
+        if type(e).__name__ != "TranslateError":
+            raise
+        rarms, _ = [], errors.append("generated reply dispatch arms (contract/communication/reply.rs templates): %s" % e)
+    try:
         rdata = translate_reply_data()
     except Exception as e:
         if type(e).__name__ != "TranslateError":
@@ -1130,6 +1154,8 @@ def generate():
 
         "(* GENERATED code, for every contract / handler / trigger / id: the sub-message builders of reply handlers *)",
         "Definition reply_builder_fns : program :=", prog(rbuild), "",
+        "(* GENERATED code: the dispatch of one reply id, in the four shapes the macro produces *)",
+        "Definition reply_arm_fns : program :=", prog(rarms), "",
         "(* GENERATED code: the extraction of the reply data, one function per declared data mode *)",
         "Definition reply_data_fns : program :=", prog(rdata), "",
         "(* sylvia/src/into_response.rs: IntoMsg / IntoResponse; `enabled_features` = the cargo features switched on *)",
